@@ -1,6 +1,8 @@
 package models
 
 import (
+	cmtproto "github.com/cometbft/cometbft/proto/tendermint/types"
+
 	"encoding/hex"
 	"strings"
 
@@ -177,4 +179,22 @@ func ValidateHash(h []byte) error {
 		return errApp
 	}
 	return nil
+}
+
+// Getters of the cometbft header proto (generated code outside the loaded sources).
+//
+//verif:model (*github.com/cometbft/cometbft/proto/tendermint/types.Header).GetAppHash
+func HeaderGetAppHash(h *cmtproto.Header) []byte {
+	if h == nil {
+		return nil
+	}
+	return h.AppHash
+}
+
+//verif:model (*github.com/cometbft/cometbft/proto/tendermint/types.Header).GetChainID
+func HeaderGetChainID(h *cmtproto.Header) string {
+	if h == nil {
+		return ""
+	}
+	return h.ChainID
 }
